@@ -99,6 +99,7 @@ fn alpha(_cfg: &Cfg) -> Vec<Op> {
         c(sgr1(0)),
         c(Ri),
         c(Ed(Some(1))),
+        c(Decsc),
     ]
 }
 
@@ -109,11 +110,11 @@ macro_rules! parts {
             name: "seed-bfs+resize-chains",
             sys: $sys,
             cfgs: match tier {
-                Tier::Quick => cfgs(&[(3, 2), (2, 2), (1, 2)], &[None]),
+                Tier::Quick => cfgs(&[(3, 2), (2, 3), (1, 2)], &[None]),
                 Tier::Thorough => cfgs(&[(3, 2), (2, 2), (4, 3), (1, 2), (2, 3)], &[None]),
             },
             alphabet: &alpha,
-            depth: tier.pick(6, 7),
+            depth: tier.pick(5, 7),
             seconds: tier.pick(35.0, 2400.0),
             validated: true,
             nontrivial: Some("resizes_with_content"),
@@ -136,7 +137,7 @@ pub fn run(ctx: &Ctx) -> Report {
     let n = rep.counters.get("seed-bfs+resize-chains.resizes_checked").copied().unwrap_or(0);
     rep.evaluations += n;
     rep.traces_validated = n;
-    rep.rule = "seed states = all states reachable by the editing alphabet (texts, CRLF, cursor moves, EL/ECH/DCH/ICH/IL/DL/ED1, SGR, RI) up to the depth bound on unlimited-scrollback primary screens; from every seed every chain of <=2 resizes over the 10 sizes 1x1..4x3; each single resize is judged by the relational oracle on logical lines (rows joined on wrap marks, cells incl. pens, trailing default blanks ignored); non-trivial = resizes of a non-empty buffer".into();
+    rep.rule = "seed states = all states reachable by the editing alphabet (texts, CRLF, cursor moves, EL/ECH/DCH/ICH/IL/DL/ED1, SGR, RI, DECSC) up to the depth bound on unlimited-scrollback primary screens; from every seed every chain of <=2 resizes over the 10 sizes 1x1..4x3; each single resize is judged by the relational oracle on logical lines (rows joined on wrap marks, cells incl. pens, trailing default blanks ignored); non-trivial = resizes of a non-empty buffer".into();
     rep.assumptions = vec![
         "primary screen, unlimited scrollback (as the statement requires)".into(),
         "'on a character of the text' = cursor offset inside the trimmed logical line".into(),
